@@ -9,24 +9,26 @@ ENTRY_SUFFIX = (
     'bita::info_cmd::info_cmd', 'bita::clone_cmd::clone_cmd',
 )
 # sites that are safe by a data-structure invariant the checker cannot see: one entry per site, with the reason
+# Keys are the role form of a site (`rkey`): module | kind | operands with the private fields of crate-local structs rendered by
+# their type (`self.#usize`), public fields by name - so that renaming a private function or field does not orphan an entry.
 REVIEWED = {
-    'R-UNTRUSTED|bitar::archive_reader::http_reader::ChunkReader::adjacent_reads::{closure}|Overflow(Add)|p0.offset[],p0.size[],->tmp':
+    'R-UNTRUSTED|bitar::archive_reader::http_reader|Overflow(Add)|p0.offset[],p0.size[],->tmp':
         'offset + size of every descriptor is validated not to overflow when the archive is opened (try_init)',
-    'R-UNTRUSTED|bitar::chunk_offset::ChunkOffset::end|Overflow(Add)|self.offset,self.size,->tmp':
+    'R-UNTRUSTED|bitar::chunk_offset|Overflow(Add)|self.offset,self.size,->tmp':
         'offset + size of every descriptor is validated not to overflow when the archive is opened (try_init)',
-    'R-UNTRUSTED|bitar::archive_reader::http_reader::ChunkReader::poll_read|Overflow(Sub)|end(index(self.chunks)),index(self.chunks).offset,->tmp':
+    'R-UNTRUSTED|bitar::archive_reader::http_reader|Overflow(Sub)|end(index(self.#Vec)),index(self.#Vec).offset,->tmp':
         'last_adjacent is at or after `next` in an adjacent run, so its end is >= next.offset',
-    'R-UNTRUSTED|bitar::archive_reader::http_reader::ChunkReader::poll_read|Overflow(Sub)|self.num_adjacent_reads,1,->tmp':
+    'R-UNTRUSTED|bitar::archive_reader::http_reader|Overflow(Sub)|self.#usize,1,->tmp':
         'assigned from adjacent_reads() on the line before, which returns count()+1 >= 1',
-    'R-UNTRUSTED|bitar::archive_reader::http_reader::ChunkReader::poll_read|BoundsCheck|PtrMetadata(index(self.chunks)),(self.num_adjacent_reads Sub 1).0,->tmp':
+    'R-UNTRUSTED|bitar::archive_reader::http_reader|BoundsCheck|PtrMetadata(index(self.#Vec)),(self.#usize Sub 1).0,->tmp':
         'adjacent_reads(chunks) <= chunks.len() by construction (windows(2).count()+1 on a non-empty slice)',
-    'R-UNTRUSTED|<bitar::archive_reader::http_reader::ChunkReader as futures_core::stream::Stream>::size_hint|Overflow(Sub)|len(self.chunks),self.chunk_index,->tmp':
+    'R-UNTRUSTED|bitar::archive_reader::http_reader|Overflow(Sub)|len(self.#Vec),self.#usize,->tmp':
         'chunk_index only grows by one per delivered chunk while chunk_index < chunks.len()',
-    'R-UNTRUSTED|<bitar::archive_reader::io_reader::IoChunkReader as futures_core::stream::Stream>::size_hint|Overflow(Sub)|len(self.chunks),self.chunk_index,->tmp':
+    'R-UNTRUSTED|bitar::archive_reader::io_reader|Overflow(Sub)|len(self.#Vec),self.#usize,->tmp':
         'chunk_index only grows by one per delivered chunk while chunk_index < chunks.len()',
-    'R-UNTRUSTED|bitar::archive::Archive::chunk_stream::{closure}|index|p0.0':
+    'R-UNTRUSTED|bitar::archive|index|p0.0':
         'enumerate() index of the reader stream, which yields at most one item per requested descriptor',
-    'R-UNTRUSTED|bitar::chunk_index::ChunkIndex::strip_chunks_already_in_place::{closure}|Overflow(Sub)|len(p0.1.offsets),len(clone(p0.1).offsets),->tmp':
+    'R-UNTRUSTED|bitar::chunk_index|Overflow(Sub)|len(p0.1.#Vec),len(clone(p0.1).#Vec),->tmp':
         'cd is a clone of the same location (closure parameter .1) from which offsets were only removed',
 }
 
@@ -45,10 +47,10 @@ def run(facts, cg, reviewed=None):
     for s in sites:
         s['key'] = facts.stabilise(s['key'])
         verdict = s['verdict']
-        if verdict == 'UNGUARDED' and s['key'] in reviewed:
+        if verdict == 'UNGUARDED' and s.get('rkey') in reviewed:
             verdict = 'reviewed'
-            used.add(s['key'])
-            s['reason'] = reviewed[s['key']]
+            used.add(s['rkey'])
+            s['reason'] = reviewed[s['rkey']]
         s['final'] = verdict
         instances.append(s)
         if verdict == 'UNGUARDED' and s['key'] not in seen_keys:
